@@ -655,6 +655,12 @@ def run_payloads(ctx):
         jobs += hist.variations(ctx, cfgs, 30)
     pls = [{"config": c, "seed": ctx.seed, "max_legs": ctx.n(120, 400), "overrides": ov, "record_fresh": True,
             "record_instates": False} for (c, ov) in jobs]
+    # a filter charge that is negative for the relevant units (oxygen indicator 0, -1, 0)
+    for c in cfgs:
+        if c.endswith("water/coulomb_cell_veto_lj_cell_veto.ini") or \
+                c.endswith("water/coulomb_power_bounded_lj_cell_bounded.ini"):
+            pls.append({"config": c, "seed": ctx.seed, "max_legs": ctx.n(120, 400), "record_fresh": True,
+                        "record_instates": False, "overrides": {"OxygenIndicator": {"charge_values": "0, -1, 0"}}})
     # extended dipoles on a composite-level cell system: molecules straddle cell boundaries (the active point mass
     # lies in another cell than its composite object), many committed cell-veto events with a target
     for c in cfgs:
@@ -727,6 +733,8 @@ def run_oracle(tr):
             continue
         tags = cell_taggers(meta, si)
         counts, layers = ist["cells_per_side"], ist["neighbor_layers"]
+        import c11
+        indep = c11.relevant_ids(tr, si)     # relevance independent of the implementation's own filter
 
         def nearby(c0, c1):
             return all(min((a - b) % n, (b - a) % n) <= layers for a, b, n in zip(c0, c1, counts))
@@ -748,6 +756,11 @@ def run_oracle(tr):
                     out.append((n, "deactivated tagger %s generates in-states" % meta["taggers"][ti]["tag"]))
             if bad:
                 continue
+            if indep is not None:
+                act_units = [u["id"] for u in leg.get("active") or [] if len(u["id"]) == ist["cell_level"]]
+                if len(act_units) == 1 and act_units[0] in indep and occ["active_id"] != act_units[0]:
+                    out.append((n, "the active unit %r has a non-zero %s but the occupancy records active unit %r: "
+                                "its partners are not treated" % (act_units[0], ist.get("charge_name"), occ["active_id"])))
             if occ["active_id"] is None:
                 for kind, fs in gen.items():
                     if any(fs_ for fs_ in fs):
@@ -759,7 +772,12 @@ def run_oracle(tr):
                 for k, ids in d.items():
                     for i in ids:
                         cell_of[tuple(i)] = [int(x) for x in k.split(",")]
-            others = Counter(tuple(i) for i in occ["relevant"] if tuple(i) != a)
+            relevant = indep if indep is not None else occ["relevant"]
+            if indep is not None and sorted(map(tuple, indep)) != sorted(map(tuple, occ["relevant"])):
+                out.append((n, "charge filter: the occupancy treats %r as relevant, the units with a non-zero %s are %r"
+                            % (sorted(map(tuple, occ["relevant"]))[:8], ist.get("charge_name"),
+                               sorted(map(tuple, indep))[:8])))
+            others = Counter(tuple(i) for i in relevant if tuple(i) != a)
             for kind, fs in gen.items():
                 for f in fs:
                     for ins in f:
